@@ -31,6 +31,9 @@ import PdModel.Proto
       MEMBER = `<name>;<v|h>`; ids number the members of the request from 0)
 * `inherited CLASS (| CLASS)*`        → `ok <id>*`                  (util.inherited_members, classes in mro order)
 * `documents (<fullName>;<v|h>)*`      → `ok <fullName>*`            (search.get_all_documents_flattenable / get_corpus)
+* `templates TPL* | TPL*`               → `ok (<key>=<outName>=<h|s>=<content>)*` sorted by key | `OverrideTemplateNotAllowed`
+      TPL = `<name>;<name.lower()>;<h|s>;<content>`; before `|`: the templates already in the lookup (in the order they were
+      added), after: the directory in the order `iterdir()` lists it   (TemplateLookup.add_templatedir)
 * `exec DIR* | OP*`                   → the same without the `wf=` token (stream of the OS primitives)
 -/
 namespace Determinism
@@ -181,6 +184,16 @@ def decClasses (groups : List (List String)) : Option (List (List Member)) :=
 
 def showMembers (ms : List Member) : String := " ".intercalate ("ok" :: ms.map (fun m => toString m.id))
 
+def decTpl (tok : String) : Option Tpl :=
+  match tok.splitOn ";" with
+  | [n, l, k, c] => do some { name := (← decName n), lower := (← decName l), html := k == "h", content := (← c.toNat?) }
+  | _ => none
+
+def showLookup (d : Lookup) : String :=
+  let ks := sorted (dedup (d.map (·.1)))
+  " ".intercalate ("ok" :: ks.filterMap fun k =>
+    (d.get k).map fun e => encName k ++ "=" ++ encName e.outName ++ "=" ++ (if e.html then "h" else "s") ++ "=" ++ toString e.content)
+
 def handle (args : List String) : String :=
   match args with
   | "sorted" :: ns =>
@@ -272,6 +285,15 @@ def handle (args : List String) : String :=
         | _ => none) with
     | some l => showNames (documentOrder l)
     | none => "bad-op"
+  | "templates" :: rest =>
+    let baseToks := rest.takeWhile (· ≠ "|")
+    let dirToks := (rest.dropWhile (· ≠ "|")).drop 1
+    match baseToks.mapM decTpl, dirToks.mapM decTpl with
+    | some b, some l =>
+      (match (addTemplateDir [] b).bind (fun d => addTemplateDir d l) with
+       | some d => showLookup d
+       | none => "OverrideTemplateNotAllowed")
+    | _, _ => "bad-op"
   | "run" :: rest => runOp true rest
   | "exec" :: rest => runOp false rest
   | _ => "bad-op"
